@@ -360,6 +360,17 @@ class ODF2XHTML(handler.ContentHandler):
         (DRAWNS, 'fill-image'): (self.s_draw_fill_image, None),
         (DRAWNS, "layer-set"):(self.s_ignorexml, None),
         (DRAWNS, 'object'): (self.s_draw_object, None),
+        (DRAWNS, 'rect'): (self.s_draw_shape, None),
+        (DRAWNS, 'ellipse'): (self.s_draw_shape, None),
+        (DRAWNS, 'circle'): (self.s_draw_shape, None),
+        (DRAWNS, 'line'): (self.s_draw_shape, None),
+        (DRAWNS, 'polygon'): (self.s_draw_shape, None),
+        (DRAWNS, 'polyline'): (self.s_draw_shape, None),
+        (DRAWNS, 'path'): (self.s_draw_shape, None),
+        (DRAWNS, 'regular-polygon'): (self.s_draw_shape, None),
+        (DRAWNS, 'connector'): (self.s_draw_shape, None),
+        (DRAWNS, 'caption'): (self.s_draw_shape, None),
+        (DRAWNS, 'measure'): (self.s_draw_shape, None),
         (DRAWNS, 'object-ole'): (self.s_draw_object_ole, None),
         (DRAWNS, 'page'): (self.s_draw_page, self.e_draw_page),
         (DRAWNS, 'text-box'): (self.s_draw_textbox, self.e_draw_textbox),
@@ -646,9 +657,18 @@ class ODF2XHTML(handler.ContentHandler):
         self.metatags.append('<meta http-equiv="creator" content=%s/>\n' % quoteattr(self.creator))
         self.data = []
 
+    def s_draw_shape(self, tag, attrs):
+        """ A drawing shape may hold paragraphs of its own: the text collected
+        so far belongs in front of them
+        """
+        self.writedata()
+        self.purgedata()
+
     def s_custom_shape(self, tag, attrs):
         """ A <draw:custom-shape> is made into a <div> in HTML which is then styled
         """
+        self.writedata()
+        self.purgedata()
         anchor_type = attrs.get((TEXTNS,'anchor-type'),'notfound')
         htmltag = 'div'
         name = "G-" + attrs.get( (DRAWNS,'style-name'), "")
